@@ -2,10 +2,12 @@ package main
 
 import (
 	"fmt"
+	"os"
 	"regexp"
 	"sort"
 	"strings"
 
+	"github.com/tsawler/tabula"
 	"github.com/tsawler/tabula/layout"
 	"github.com/tsawler/tabula/text"
 )
@@ -80,7 +82,7 @@ func (g *c09gen) page() c09page {
 			justified := rng.Bool()
 			if rng.Chance(1, 9) {
 				// a list item
-				b := []string{"•", "-", "1.", "a)"}[rng.Intn(4)]
+				b := []string{"*", "-", "1.", "a)"}[rng.Intn(4)]
 				add(b, x, y, lineSize*0.6, lineSize, text.LTR)
 				x += lineSize * 1.2
 			}
@@ -302,7 +304,161 @@ func init() {
 				}
 				checkChars("reading-order-line-texts", lt.String())
 			}
-			r.Case(cv, L(), "page:"+strings.SplitN(p.kind, "+", 2)[0], !strings.HasPrefix(p.kind, "1col"))
+			// the same page through the public API, in every text mode
+			if it%3 == 0 && !strings.Contains(p.kind, "+") {
+				var pls []pdfLine
+				for _, f := range p.frags {
+					pls = append(pls, pdfLine{x: int(f.X), y: int(f.Y), size: int(f.Height), text: f.Text})
+				}
+				path := tmpFile(r, ".pdf", mkPDFLines([][]pdfLine{pls}, 612, 792))
+				modes := map[string]func() (string, error){
+					"default":         func() (string, error) { t, _, e := tabula.Open(path).Text(); return t, e },
+					"by-column":       func() (string, error) { t, _, e := tabula.Open(path).ByColumn().Text(); return t, e },
+					"preserve-layout": func() (string, error) { t, _, e := tabula.Open(path).PreserveLayout().Text(); return t, e },
+					"join-paragraphs": func() (string, error) { t, _, e := tabula.Open(path).JoinParagraphs().Text(); return t, e },
+					"no-headers":      func() (string, error) { t, _, e := tabula.Open(path).ExcludeHeadersAndFooters().Text(); return t, e },
+				}
+				for name, fn := range modes {
+					out, err := fn()
+					if err != nil {
+						r.Check(false, "api-error:"+name, err.Error(), cv)
+						continue
+					}
+					d := c09CharDiff(out, inChars.String())
+					if d != "" {
+						d += "; " + c09Diff(c09Tok.FindAllString(out, -1), wantFrag, false)
+					}
+					r.Check(d == "", "api-text:"+name, fmt.Sprintf("text mode %s on a page of kind %s: %s", name, p.kind, d), cv)
+				}
+				os.Remove(path)
+			}
+			// correspondence: each structure must be a regrouping of the input. The decisions the
+			// implementation took (which group, which place) are read off its output and given to the
+			// model as oracles; the model rebuilds the groups from the input fragments.
+			ids := map[string]int{}
+			fid := func(f text.TextFragment) string { return fmt.Sprintf("%s@%.3f,%.3f", f.Text, f.X, f.Y) }
+			for i, f := range p.frags {
+				ids[fid(f)] = i
+			}
+			nf := len(p.frags)
+			one := func(tag string, groups [][]text.TextFragment) {
+				k := len(groups)
+				keys := make([]int, nf)
+				poss := make([]int, nf)
+				for i := range keys {
+					keys[i] = k
+				}
+				gv := VL{}
+				seen := map[int]bool{}
+				for gi, g := range groups {
+					row := VL{}
+					for pi, f := range g {
+						id, ok := ids[fid(f)]
+						if !ok {
+							id = nf // an invented fragment
+						}
+						row = append(row, I(id))
+						if ok && !seen[id] {
+							seen[id] = true
+							keys[id], poss[id] = gi, pi
+						}
+					}
+					gv = append(gv, row)
+				}
+				kv, pv := VL{}, VL{}
+				for i := 0; i < nf; i++ {
+					kv = append(kv, I(keys[i]))
+					pv = append(pv, I(poss[i]))
+				}
+				r.Case(L(I(0), I(nf), I(k), kv, pv), L(gv, L()), "regroup:"+tag, k >= 2)
+			}
+			two := func(tag string, groups [][][]text.TextFragment) {
+				k1, k2 := len(groups), 0
+				for _, g := range groups {
+					if len(g) > k2 {
+						k2 = len(g)
+					}
+				}
+				keys1, keys2, poss := make([]int, nf), make([]int, nf), make([]int, nf)
+				for i := range keys1 {
+					keys1[i], keys2[i] = k1, k2
+				}
+				seen := map[int]bool{}
+				ggv := VL{}
+				for gi, g := range groups {
+					gv := VL{}
+					for li := 0; li < k2; li++ {
+						row := VL{}
+						if li < len(g) {
+							for pi, f := range g[li] {
+								id, ok := ids[fid(f)]
+								if !ok {
+									id = nf
+								}
+								row = append(row, I(id))
+								if ok && !seen[id] {
+									seen[id] = true
+									keys1[id], keys2[id], poss[id] = gi, li, pi
+								}
+							}
+						}
+						gv = append(gv, row)
+					}
+					ggv = append(ggv, gv)
+				}
+				k1v, k2v, pv := VL{}, VL{}, VL{}
+				for i := 0; i < nf; i++ {
+					k1v = append(k1v, I(keys1[i]))
+					k2v = append(k2v, I(keys2[i]))
+					pv = append(pv, I(poss[i]))
+				}
+				r.Case(L(I(1), I(nf), I(k1), I(k2), k1v, k2v, pv), L(ggv, L()), "regroup2:"+tag, k1 >= 2)
+			}
+			if res.Lines != nil {
+				var gs [][]text.TextFragment
+				for _, ln := range res.Lines.Lines {
+					gs = append(gs, ln.Fragments)
+				}
+				one("lines", gs)
+			}
+			if res.Columns != nil {
+				var gs [][]text.TextFragment
+				for _, c := range res.Columns.Columns {
+					gs = append(gs, c.Fragments)
+				}
+				gs = append(gs, res.Columns.SpanningFragments)
+				one("columns", gs)
+			}
+			if res.Blocks != nil {
+				var gs [][]text.TextFragment
+				for _, b := range res.Blocks.Blocks {
+					gs = append(gs, b.Fragments)
+				}
+				one("blocks", gs)
+			}
+			if res.ReadingOrder != nil {
+				one("reading-order", [][]text.TextFragment{res.ReadingOrder.Fragments})
+				var ss [][][]text.TextFragment
+				for _, sec := range res.ReadingOrder.Sections {
+					var ls [][]text.TextFragment
+					for _, ln := range sec.Lines {
+						ls = append(ls, ln.Fragments)
+					}
+					ss = append(ss, ls)
+				}
+				two("sections", ss)
+			}
+			if res.Paragraphs != nil {
+				var ps [][][]text.TextFragment
+				for _, pa := range res.Paragraphs.Paragraphs {
+					var ls [][]text.TextFragment
+					for _, ln := range pa.Lines {
+						ls = append(ls, ln.Fragments)
+					}
+					ps = append(ps, ls)
+				}
+				two("paragraphs", ps)
+			}
 		}
 	}
 }
